@@ -225,7 +225,7 @@ func OpenWith(pLog, dLog, cLog appendable.Appendable, opts *Options) (*AHtree, e
 		return nil, err
 	}
 
-	if pLogFileSize < t.pLogSize {
+	if pOff > uint64(pLogFileSize) || pLogFileSize < t.pLogSize {
 		return nil, ErrorCorruptedData
 	}
 
@@ -424,7 +424,7 @@ func (t *AHtree) ResetSize(newSize uint64) error {
 			return err
 		}
 
-		if pLogFileSize < pLogSize {
+		if pOff > uint64(pLogFileSize) || pLogFileSize < pLogSize {
 			return ErrorCorruptedData
 		}
 
@@ -712,6 +712,10 @@ func (t *AHtree) DataAt(n uint64) ([]byte, error) {
 
 	pOff := binary.BigEndian.Uint64(b[:])
 	pSize := binary.BigEndian.Uint32(b[offsetSize:])
+
+	if pOff > uint64(t.pLogSize) || int64(pOff)+int64(szSize)+int64(pSize) > t.pLogSize {
+		return nil, ErrorCorruptedData
+	}
 
 	p := make([]byte, pSize)
 	if pSize > 0 {
